@@ -399,7 +399,7 @@ type vfC14Script struct {
 	WinClient bool                   `json:"win_client"`
 	Act       map[string]interface{} `json:"act"`
 	Cfg       map[string]interface{} `json:"cfg"`
-	End       string                 `json:"end"` // client-exit, client-fail, server-fail, server-exit, ctrl-c, cancel (confirm=false)
+	End       string                 `json:"end"` // client-exit, client-fail, server-fail, server-exit, ctrl-c, cancel (confirm=false), bad-cfg
 	Split     int                    `json:"split"`
 }
 
@@ -498,6 +498,26 @@ func (r *vfRelayRig) c14Scripted(sc vfC14Script, rnd *vfRand) bool {
 	if sc.WinServer {
 		serverNL = "!\n"
 	}
+	if sc.End == "bad-cfg" {
+		// a CFG that decodes but is not a configuration: the relay must tell both ends and recover
+		cb, sb := r.toServer.Len(), r.toClient.Len()
+		vfWriteSplit(r.serverOut, []byte("#CFG:"+encodeString(rnd.PickStr(`{"bufsize":"oops"`, `not json`, `[1,2]`, `{"timeout":{}}`))+serverNL), sc.Split, rnd)
+		deadline := time.Now().Add(10 * time.Second)
+		for {
+			_, _, okS := vfRawLine(r.toServer.Bytes()[cb:], "#FAIL:")
+			_, _, okC := vfRawLine(r.toClient.Bytes()[sb:], "#FAIL:")
+			if okS && okC {
+				break
+			}
+			if time.Now().After(deadline) {
+				c.Viol("c14-bad-cfg-not-reported", "scripted %+v: after a CFG that is not a configuration the relay did not send a FAIL line to both ends within 10 s (server end got one: %v, client end got one: %v, relay status %d)", sc, okS, okC, r.relay.relayStatus.Load())
+				return false
+			}
+			time.Sleep(200 * time.Microsecond)
+		}
+		c.Obs("scripted_bad_cfg_reported", 1)
+		return r.c14ScriptedEnd(sc, rnd, "\n", "\n")
+	}
 	s1 := r.toClient.Len()
 	vfWriteSplit(r.serverOut, []byte("#CFG:"+encodeString(string(cfgJSON))+serverNL), sc.Split, rnd)
 	if !vfWaitSink(r.toClient, s1, []byte("\n"), 20*time.Second) {
@@ -554,7 +574,7 @@ func (r *vfRelayRig) c14Scripted(sc vfC14Script, rnd *vfRand) bool {
 // c14ScriptedEnd ends the scripted episode, waits for standby and probes transparency.
 func (r *vfRelayRig) c14ScriptedEnd(sc vfC14Script, rnd *vfRand, clientNL, serverNL string) bool {
 	c := r.c
-	if sc.End != "cancel" {
+	if sc.End != "cancel" && sc.End != "bad-cfg" {
 		if st := r.relay.relayStatus.Load(); st != kRelayTransferring {
 			deadline := time.Now().Add(5 * time.Second)
 			for r.relay.relayStatus.Load() != kRelayTransferring && time.Now().Before(deadline) {
@@ -649,7 +669,7 @@ func (r *vfRelayRig) c14ScriptedEnd(sc vfC14Script, rnd *vfRand, clientNL, serve
 func vfC14ScriptedCases() []vfCase {
 	var cases []vfCase
 	n := vfPick(24, 300)
-	ends := []string{"client-exit", "client-fail", "server-fail", "server-exit", "ctrl-c", "cancel"}
+	ends := []string{"client-exit", "client-fail", "server-fail", "server-exit", "ctrl-c", "cancel", "bad-cfg"}
 	for i := 0; i < n; i++ {
 		i := i
 		cases = append(cases, vfCase{ID: fmt.Sprintf("script-%d", i), Run: func(c *vfCtx) {
